@@ -1,5 +1,154 @@
-/- Line-protocol driver for the C12 model (stub until the model exists). -/
-import ForML.Model.Sexp
-open ForML
+/- Line-protocol driver for the C12 model (ForML.Model.CrossVal).
 
-def main : IO Unit := driverLoop (fun _ => .atom "no-model")
+  (denote <pipe>)                 ⟦pipe⟧ on (input 0) (input 1) (input 2): (ok <apply> <train> <label>)
+  (rows <env> <val>)              provenance value of a term: (ok ((col rid ((col rid) ...)) ...)), deps sorted
+  (init crossval <cv> <builder> <nsplits>) | (init holdout <sized> <cv> <builder>)
+  | (init ensembler <nbases> <cv> <builder> <nsplits>)         constructor argument checks
+  (cvfold <indices|none> (<rid> ...))                          CVFoldable.apply on rows with these record ids
+
+  actor ::= (tag stateful)        slot ::= none | actor
+  pipe  ::= (wrap slot slot slot) | (mapreduce (actor ...) tag) | (stack (pipe ...) n splitter appender stacker reducer)
+          | (score n splitter metric reducer) | (seq pipe pipe)
+  val   ::= none | (input n) | (apply tag val (val ...)) | (state tag val val val) | (part tag val k val)
+          | (concat tag (val ...))
+  env   ::= (ntrain napply ((tag nsplits decision) ...))
+  decision ::= (kfold r) | (table (((p ...) (p ...)) ...))       indices ::= (((p ...) (p ...)) ...)
+-/
+import ForML.Model.Sexp
+import ForML.Model.CrossVal
+open ForML ForML.CrossVal
+
+def bool? : Sexp → Option Bool
+  | .atom "true" => some true
+  | .atom "false" => some false
+  | _ => none
+
+def optNat? : Sexp → Option (Option Nat)
+  | .atom "none" => some none
+  | x => x.nat?.map some
+
+def actor? : Sexp → Option Actor
+  | .list [t, s] => do pure ⟨← t.nat?, ← bool? s⟩
+  | _ => none
+
+def slot? : Sexp → Option (Option Actor)
+  | .atom "none" => some none
+  | x => (actor? x).map some
+
+partial def pipe? : Sexp → Option Pipe
+  | .list [.atom "wrap", l, a, t] => do pure (.wrap (← slot? l) (← slot? a) (← slot? t))
+  | .list [.atom "mapreduce", .list ms, r] => do pure (.mapreduce (← ms.mapM actor?) (← r.nat?))
+  | .list [.atom "stack", .list bs, n, s, a, k, r] => do
+    pure (.stack (← bs.mapM pipe?) (← n.nat?) (← s.nat?) (← a.nat?) (← k.nat?) (← r.nat?))
+  | .list [.atom "score", n, s, m, r] => do pure (.score (← n.nat?) (← s.nat?) (← m.nat?) (← r.nat?))
+  | .list [.atom "seq", l, r] => do pure (.seq (← pipe? l) (← pipe? r))
+  | _ => none
+
+partial def val? : Sexp → Option Val
+  | .atom "none" => some .none
+  | .list [.atom "input", n] => do pure (.input (← n.nat?))
+  | .list [.atom "apply", t, st, .list args] => do pure (.apply (← t.nat?) (← val? st) (← args.mapM val?))
+  | .list [.atom "state", t, p, x, y] => do pure (.state (← t.nat?) (← val? p) (← val? x) (← val? y))
+  | .list [.atom "part", t, st, k, x] => do pure (.part (← t.nat?) (← val? st) (← k.nat?) (← val? x))
+  | .list [.atom "concat", t, .list args] => do pure (.concat (← t.nat?) (← args.mapM val?))
+  | _ => none
+
+partial def valSexp : Val → Sexp
+  | .none => .atom "none"
+  | .input n => .list [.atom "input", Sexp.ofNat n]
+  | .apply t st args => .list [.atom "apply", Sexp.ofNat t, valSexp st, .list (args.map valSexp)]
+  | .state t p x y => .list [.atom "state", Sexp.ofNat t, valSexp p, valSexp x, valSexp y]
+  | .part t st k x => .list [.atom "part", Sexp.ofNat t, valSexp st, Sexp.ofNat k, valSexp x]
+  | .concat t args => .list [.atom "concat", Sexp.ofNat t, .list (args.map valSexp)]
+
+def pair? : Sexp → Option (List Nat × List Nat)
+  | .list [a, b] => do pure (← a.natList?, ← b.natList?)
+  | _ => none
+
+def indices? : Sexp → Option Indices
+  | .list xs => xs.mapM pair?
+  | _ => none
+
+def decision? : Sexp → Option Decision
+  | .list [.atom "kfold", r] => do pure (.kfold (← r.nat?))
+  | .list [.atom "table", sel] => do pure (.table (← indices? sel))
+  | _ => none
+
+def splitterSpec? : Sexp → Option (Nat × Nat × Decision)
+  | .list [t, c, d] => do pure (← t.nat?, ← c.nat?, ← decision? d)
+  | _ => none
+
+def sourceRows (col n : Nat) : Data := (List.range n).map fun r => ⟨⟨col, r⟩, []⟩
+
+def env? : Sexp → Option Env
+  | .list [n, m, .list specs] => do
+    let n ← n.nat?
+    let m ← m.nat?
+    let specs ← specs.mapM splitterSpec?
+    pure { inp := fun c => if c = 0 then sourceRows 0 m else if c = 1 then sourceRows 1 n else if c = 2 then sourceRows 2 n else []
+           dec := fun tag x _ => match specs.find? (fun s => s.1 == tag) with
+             | some (_, c, d) => d.indices c x.length
+             | none => [] }
+  | _ => none
+
+def atomLt (a b : Atom) : Bool := a.col < b.col || (a.col == b.col && a.rid < b.rid)
+
+/-- insertion sort (lists are short and duplicate-free) -/
+def sortAtoms (xs : List Atom) : List Atom :=
+  xs.foldl (fun acc x => (acc.takeWhile (fun y => atomLt y x)) ++ [x] ++ (acc.dropWhile (fun y => atomLt y x))) []
+
+def atomSexp (a : Atom) : Sexp := Sexp.ofNats [a.col, a.rid]
+
+def rowSexp (r : Row) : Sexp :=
+  .list [Sexp.ofNat r.key.col, Sexp.ofNat r.key.rid, .list ((sortAtoms r.deps.eraseDups).map atomSexp)]
+
+def errSexp : Err → Sexp
+  | .notTrained => .atom "notTrained"
+  | .typeError => .atom "TypeError"
+  | .valueError => .atom "ValueError"
+
+def stepC12 : Sexp → Sexp
+  | .list [.atom "denote", p] =>
+    match pipe? p with
+    | some p =>
+      let s := denote p (.input 0) (.input 1) (.input 2)
+      .list [.atom "ok", valSexp s.apply, valSexp s.train, valSexp s.label]
+    | none => .atom "bad-op"
+  | .list [.atom "rows", e, v] =>
+    match env? e, val? v with
+    | some E, some v => .list [.atom "ok", .list ((rows E v).map rowSexp)]
+    | _, _ => .atom "bad-op"
+  | .list [.atom "init", .atom "crossval", cv, b, ns] =>
+    match optNat? cv, bool? b, optNat? ns with
+    | some cv, some b, some ns =>
+      match crossValInit cv b ns with
+      | .ok n => .list [.atom "ok", Sexp.ofNat n]
+      | .error e => .list [.atom "error", errSexp e]
+    | _, _, _ => .atom "bad-op"
+  | .list [.atom "init", .atom "holdout", sized, cv, b] =>
+    match bool? sized, optNat? cv, bool? b with
+    | some sized, some cv, some b =>
+      match holdOutInit sized cv b with
+      | .ok (w, c) => .list [.atom "ok", Sexp.ofNat w, Sexp.ofNat c]
+      | .error e => .list [.atom "error", errSexp e]
+    | _, _, _ => .atom "bad-op"
+  | .list [.atom "init", .atom "ensembler", m, cv, b, ns] =>
+    match m.nat?, optNat? cv, bool? b, optNat? ns with
+    | some m, some cv, some b, some ns =>
+      match ensemblerInit m cv b ns with
+      | .ok n => .list [.atom "ok", Sexp.ofNat n]
+      | .error e => .list [.atom "error", errSexp e]
+    | _, _, _, _ => .atom "bad-op"
+  | .list [.atom "cvfold", idx, ids] =>
+    let idx? : Option (Option Indices) := match idx with
+      | .atom "none" => some none
+      | x => (indices? x).map some
+    match idx?, ids.natList? with
+    | some idx, some ids =>
+      match cvApply idx (ids.map fun r => ⟨⟨1, r⟩, []⟩) with
+      | .ok parts => .list [.atom "ok", .list (parts.map fun d => Sexp.ofNats d.rids)]
+      | .error e => .list [.atom "error", errSexp e]
+    | _, _ => .atom "bad-op"
+  | _ => .atom "bad-op"
+
+def main : IO Unit := driverLoop stepC12
